@@ -27,6 +27,9 @@ Inductive rk :=
 | RKSigNonce        (* PartialSigWithNonce: 32-byte scalar ++ 66-byte nonce (two curve points) *)
 | RKNonce           (* Musig2Nonce: 66 bytes = two compressed curve points *)
 | RKPoint           (* tlv.DPubKey: 33 bytes accepted iff on_curve *)
+| RKBigSize         (* tlv.BigSizeT / MilliSatoshi records (tlv.DBigSize): one BigSize integer; the
+                       decoder IGNORES the announced record length (finding C10-F2); Encode
+                       writes the minimal encoding under its true length *)
 | RKNonceMap.       (* LocalNoncesData: at most 16 entries of 32-byte txid ++ 66-byte nonce
                        (two curve points), txids distinct; Encode writes them sorted by txid *)
 
@@ -39,6 +42,7 @@ Definition rk_vkind (k : rk) : vkind :=
   | RKNonce => KFixed 66
   | RKPoint => KFixed 33
   | RKNonceMap => KVar
+  | RKBigSize => KBigSize
   end.
 
 (* secp256k1 group order *)
@@ -277,7 +281,7 @@ Section Msg.
     | KTrunc n => (blen v <=? n) && (match v with 0 :: _ => false | _ => true end)
     | KVar => true
     | KBool => match v with [x] => x <=? 1 | _ => false end
-    | KBigSize => false       (* not used by any modelled message: excluded *)
+    | KBigSize => match bigsize_dec v with Ok (_, []) => true | _ => false end
     end.
 
   Definition rec_okb (M : tlvmsg) (r : tlv_record) : bool :=
